@@ -44,7 +44,9 @@ def case_from_tlc(p: dict, emb: str) -> dict | None:
     w, h = p["die"][0] // 2, p["die"][1] // 2                  # grid squares
     variant = p["variant"]
     has_fixed = variant in ("fixed", "mixed")
-    has_hard = variant in ("hard", "flip", "mixed")
+    has_hard = variant in ("hard", "flip", "mixed", "twin")
+    if variant == "over":
+        return _over_case(p, emb, w, h)
     if p["init"] == "grid" and has_fixed:
         return None
     W, H = w * U, h * U
@@ -61,6 +63,8 @@ def case_from_tlc(p: dict, emb: str) -> dict | None:
         mods.append({"kind": "hard", "flip": int(variant in ("flip", "mixed")),
                      "rects": [[x0, y0, x0 + 8, y0 + 2], [x0 + 3, y0 + 2, x0 + 5, y0 + 4]]})
         hard_idx = len(mods)
+        if variant == "twin":      # a second macro with the SAME trunk description (same place, same shape), another branch
+            mods.append({"kind": "hard", "flip": 1, "rects": [[x0, y0, x0 + 8, y0 + 2], [x0, y0 + 2, x0 + 2, y0 + 4]]})
     # soft modules on the grid squares; their area is scaled so that everything fits
     free = W * H - sum((b[2] - b[0]) * (b[3] - b[1]) for b in blk) - sum(
         (r[2] - r[0]) * (r[3] - r[1]) for m in mods for r in m["rects"])
@@ -86,6 +90,24 @@ def case_from_tlc(p: dict, emb: str) -> dict | None:
         nets.append([1, [grid[(0, top)], grid[(w - 1, top)], fixed_idx]])
     init = {"none": ["none"], "grid": ["grid", h, w], "split4": ["split", 2.0, 4], "split8": ["split", 2.0, 8]}[p["init"]]
     return {"src": "tlc", "emb": emb, "die": [W, H], "blk": blk, "mods": mods, "nets": nets,
+            "thr": p["thr"] / 100, "alpha": p["alpha"] / 100, "maxiter": p["maxiter"], "init": init}
+
+
+def _over_case(p: dict, emb: str, w: int, h: int) -> dict:
+    """A small fixed block in the middle of the die and a big soft module dropped on it (its initial square covers the
+    cell of the fixed block and the cells around it), small soft modules elsewhere.  The unchanged optimiser mostly
+    gives up on these ("Solution Not Found": outside the quantifier); whatever IS returned is judged."""
+    W, H = w * U, h * U
+    fx, fy = (W // 2) // 2 * 2, (H // 2) // 2 * 2
+    mods = [{"kind": "fixed", "rects": [[fx - 1, fy - 1, fx + 1, fy + 1]]},
+            {"kind": "soft", "area": U * U * (1 + p["ascale"] / 2), "center": [fx, fy]}]
+    corners = [(2, 2), (W - 2, 2), (2, H - 2), (W - 2, H - 2)]
+    for (x, y) in corners[:2 + p["ascale"] % 2]:
+        mods.append({"kind": "soft", "area": U * U / 4, "center": [x, y]})
+    n = len(mods)
+    nets = [[1, [1, 2]]] + [[1, [2, k]] for k in range(3, n + 1)] + [[1, [1, n]]]
+    init = {"none": ["split", 2.0, 16], "grid": ["split", 2.0, 24], "split4": ["split", 2.0, 12], "split8": ["split", 2.0, 32]}[p["init"]]
+    return {"src": "tlc", "emb": emb, "die": [W, H], "blk": [], "mods": mods, "nets": nets, "motif": "soft_over_fixed",
             "thr": p["thr"] / 100, "alpha": p["alpha"] / 100, "maxiter": p["maxiter"], "init": init}
 
 
@@ -153,6 +175,28 @@ def _random_case(rng: random.Random, emb: str) -> dict | None:
     for (i, j), s in zip(squares, shares):
         mods.append({"kind": "soft", "area": round(min(total * s / sum(shares), 1.5 * U * U), 3),
                      "center": [i * U + 2 + rng.choice([-1, 0, 0, 1]), j * U + 2 + rng.choice([-1, 0, 0, 1])]})
+    motif = ""
+    hards = [m for m in mods if m["kind"] == "hard"]
+    if hards and rng.random() < 0.35:
+        # a variant of the same macro: the SAME first rectangle (same description), a different further rectangle
+        t = hards[0]["rects"][0]
+        extra = [t[0], t[3], t[0] + 2, t[3] + 2] if t[3] + 2 <= H else [t[2], t[1], t[2] + 2, t[1] + 2]
+        if len(hards[0]["rects"]) == 1:
+            hards[0]["rects"].append([t[2] - 2, t[3], t[2], t[3] + 2] if t[3] + 2 <= H and t[2] - t[0] >= 4 else [t[0], t[1] - 2, t[0] + 2, t[1]])
+            if min(hards[0]["rects"][1][:2]) < 0 or hards[0]["rects"][1] == extra:
+                hards[0]["rects"].pop()
+        mods.append({"kind": "hard", "flip": int(rng.random() < 0.5), "rects": [list(t), extra]})
+        motif = "twin_macros"
+    fixeds = [m for m in mods if m["kind"] == "fixed"]
+    softs = [m for m in mods if m["kind"] == "soft"]
+    if fixeds and softs and rng.random() < 0.25:
+        # a soft module dropped on a fixed one (its square covers the fixed cell and what surrounds it)
+        r = fixeds[0]["rects"][0]
+        softs[0]["center"] = [(r[0] + r[2]) // 2, (r[1] + r[3]) // 2]
+        softs[0]["area"] = round(max(softs[0]["area"], 2.5 * (r[2] - r[0] + 2) * (r[3] - r[1] + 2)), 3)
+        motif = motif or "soft_over_fixed"
+    elif len(softs) >= 2 and rng.random() < 0.15:
+        softs[1]["center"] = list(softs[0]["center"])              # two soft modules start at the same point
     rng.shuffle(mods)
     n = len(mods)
     order = list(range(1, n + 1))
@@ -163,7 +207,9 @@ def _random_case(rng: random.Random, emb: str) -> dict | None:
     clean = not blk and not any(m["kind"] == "fixed" for m in mods)
     # (most instances without initial refinement or with a low threshold make GEKKO give up: they are sampled less)
     inits = [["none"]] + [["split", 2.0, rng.randint(2, 10)], ["split", 3.0, rng.randint(2, 8)]] * 3 + ([["grid", h, w]] * 3 if clean else [])
-    return {"src": "rnd", "emb": emb, "die": [W, H], "blk": blk, "mods": mods, "nets": nets,
+    if motif == "soft_over_fixed":
+        inits = [["split", 2.0, rng.randint(12, 40)]]              # fine cells: the fixed cell gets neighbours
+    return {"src": "rnd", "motif": motif, "emb": emb, "die": [W, H], "blk": blk, "mods": mods, "nets": nets,
             "thr": rng.choice([0.5, 0.6, 0.7, 0.75, 0.8, 0.85, 0.85] + [0.9] * 5 + [0.95] * 8), "alpha": rng.choice([0, 0.1, 0.3, 0.5, 0.8, 1]),
             "maxiter": rng.randint(1, 4), "init": rng.choice(inits)}
 
@@ -208,12 +254,18 @@ def run_case(case: dict) -> dict:
     q = lambda v: int(round((float(v) - off) / step * SUB))                  # noqa: E731
     Rectangle.undefine_epsilon()
     tree, dtree = build_inputs(case, emb)
-    netlist = Netlist(tree)                 # an exception while loading is a harness problem (invalid input built)
-    die = Die(dtree, netlist)
-    if case["init"][0] == "grid":
-        die.initial_grid(case["init"][1], case["init"][2])
-    elif case["init"][0] == "split":
-        die.split_refinable_regions(case["init"][1], case["init"][2])
+    try:
+        netlist = Netlist(tree)
+        die = Die(dtree, netlist)
+        if case["init"][0] == "grid":
+            die.initial_grid(case["init"][1], case["init"][2])
+        elif case["init"][0] == "split":
+            die.split_refinable_regions(case["init"][1], case["init"][2])
+    except Exception as e:
+        # the documents are valid by construction (on the unchanged tree this count is 0, see coverage.runs): a tree that
+        # cannot even load them does not return anything to judge
+        return {"status": "no_result", "exc": type(e).__name__, "msg": str(e)[:100], "where": "loading the netlist / die",
+                "optimisations_done": 0}
     names = [m.name for m in netlist.modules]
     assert names == [f"M{i + 1}" for i in range(len(names))]
     kind = [m["kind"] for m in case["mods"]]
@@ -340,8 +392,11 @@ def run_extract_case(case: dict) -> dict:
                 d["flip"] = True
         mods[f"M{i + 1}"] = d
     names = list(mods)
-    netlist = Netlist({"Modules": mods, "Nets": [names[:2]]})
-    die = Die({"width": emb.length(inst["die"][0]), "height": emb.length(inst["die"][1])}, netlist)
+    try:
+        netlist = Netlist({"Modules": mods, "Nets": [names[:2]]})
+        die = Die({"width": emb.length(inst["die"][0]), "height": emb.length(inst["die"][1])}, netlist)
+    except Exception as e:      # (0 on the unchanged tree) a tree that cannot load the documents returns nothing to judge
+        return {"status": "no_result", "exc": type(e).__name__, "msg": str(e)[:100], "where": "loading", "all_empty": 0}
     cells = [parse_yaml_rectangle(emb.rect(c)) for c in case["cells"]]
     model = types.SimpleNamespace(a={}, x={}, y={}, d={})
     for i, (nm, m) in enumerate(zip(names, inst["mods"])):
@@ -402,7 +457,10 @@ def decide(ctx: Ctx, cases: list[dict]):
             continue
         if c["src"] == "sol" and val["status"] == "no_result":
             # a solution that leaves every cell empty cannot be rebuilt (the specified Extract is not enabled either)
-            xs = ctx.extra.setdefault("extract_replays_not_rebuilt", {"all_cells_empty": 0, "other": 0})
+            xs = ctx.extra.setdefault("extract_replays_not_rebuilt", {"all_cells_empty": 0, "other": 0, "documents_not_loaded": 0})
+            if val["where"] == "loading":
+                xs["documents_not_loaded"] += 1
+                continue
             xs["all_cells_empty" if val["all_empty"] else "other"] += 1
             if not val["all_empty"]:
                 ctx.model_drift(f"extract_solution raised {val['exc']} on a solution the specification extracts")
@@ -452,7 +510,7 @@ def decide(ctx: Ctx, cases: list[dict]):
         for (l, clause) in v["fails"]:
             e = t["events"][l - 1]
             ctx.violation(clause, c, {"event": l, "type": e["t"], "snapshot": e, "mods": t["mods"], "die": t["die"]},
-                          {"emb": c["emb"], "src": c["src"], "event": e["t"]})
+                          {"emb": c["emb"], "src": c["src"], "event": e["t"], "motif": c.get("motif", "")})
         for (l, clause) in v["drift"]:
             ctx.model_drift(f"{clause} at {t['events'][l - 1]['t']}")
     shown = {"sol": 0, "tlc": 0, "rnd": 0}
